@@ -200,6 +200,7 @@ class C13(Check):
             acc = ip.accepts()
             snap['accepts'] = sorted(acc)
             snap['choices'] = sorted(ip.choices().keys())
+            snap['pretty'] = ip.pretty()         # (same instance on both sides of every comparison, so state numbers are comparable)
         except Exception as ex:
             snap['accepts'] = 'raised ' + type(ex).__name__
             acc = ()
